@@ -189,6 +189,9 @@ pub struct ArgsSpec {
     /// Write `--` between the flags and the positional globs (flags-first order only).
     #[serde(default)]
     pub dashdash: bool,
+    /// With `list`: `-e`/`-E` flags in front of the subcommand, `-d`/`--ignore` behind its globs.
+    #[serde(default)]
+    pub split_flags: bool,
 }
 
 impl ArgsSpec {
@@ -214,19 +217,43 @@ impl ArgsSpec {
                 (false, None) => unreachable!(),
             }
         };
-        for v in &self.disable {
-            put("--disable", Some("-d"), v.clone());
-        }
-        for v in &self.enable {
-            put("--enable", Some("-e"), v.clone());
-        }
-        for g in &self.ignore {
-            put("--ignore", None, g.clone());
-        }
-        for (k, v) in &self.extensions {
-            put("--extension", Some("-E"), format!("{k}={v}"));
+        if self.list && self.split_flags {
+            for v in &self.enable {
+                put("--enable", Some("-e"), v.clone());
+            }
+            for (k, v) in &self.extensions {
+                put("--extension", Some("-E"), format!("{k}={v}"));
+            }
+            for v in &self.disable {
+                put("--disable", Some("-d"), v.clone());
+            }
+            for g in &self.ignore {
+                put("--ignore", None, g.clone());
+            }
+        } else {
+            for v in &self.disable {
+                put("--disable", Some("-d"), v.clone());
+            }
+            for v in &self.enable {
+                put("--enable", Some("-e"), v.clone());
+            }
+            for g in &self.ignore {
+                put("--ignore", None, g.clone());
+            }
+            for (k, v) in &self.extensions {
+                put("--extension", Some("-E"), format!("{k}={v}"));
+            }
         }
         let mut out = Vec::new();
+        if self.list && self.split_flags {
+            // the flags are global: they may stand on either side of the subcommand, or on both
+            let split = flags.iter().position(|f| f.starts_with("-d") || f.starts_with("--disable") || f.starts_with("--ignore")).unwrap_or(flags.len());
+            out.extend(flags[..split].iter().cloned());
+            out.push("list".to_string());
+            out.extend(self.globs.clone());
+            out.extend(flags[split..].iter().cloned());
+            return out;
+        }
         if self.list {
             if !self.flags_last {
                 out.extend(flags.clone());
